@@ -10,7 +10,7 @@
     covered by the bounded sweep (a test) and by the correspondence search. *)
 From InvokeVerif Require Import Common.Tree Common.StrUtil Model.MergeModel Model.ConfigModel
      Spec.C03Spec Spec.C06Spec Proofs.C03_merge Proofs.C06_shapes Proofs.C06_track Proofs.C06_refine
-     Proofs.C06_witness.
+     Proofs.C06_witness Proofs.C06_union Proofs.C06_final.
 
 (** Representation lemma behind everything: a leaf written at a path where the
     schema has a leaf, with nothing above it marked deleted, turns "journal J"
@@ -30,16 +30,15 @@ Proof. exact inv_delete. Qed.
     tree saying which paths are sections and which are leaves) to which all
     level contents conform; the history starts from a merged state without
     edits; every operation navigates from the root and is a read (get, contains,
-    len, keys), a deletion (del, pop, popitem), a write of a LEAF where the schema
-    has a leaf (set, setdefault with or without default), or a reload of the
-    defaults / overrides / collection level with conforming data.
+    len, keys), a deletion (del, pop, popitem, clear), a write of LEAVES where the
+    schema has leaves (set, setdefault with or without default, update), or a
+    reload of the defaults / overrides / collection level with conforming data.
     MISSING w.r.t. the full statement: dict-valued writes (false: F-C06a), held
-    proxies (false: F-C06e, F-C06b), clear/update (successive del/set; swept
-    below), load_shell_env / file levels / clone inside the history (swept below
-    and exercised by the correspondence), comparison of returned values (the
+    proxies (false: F-C06e, F-C06b), load_shell_env / file levels / clone inside
+    the history (swept below and exercised by the correspondence), comparison of
+    returned values (the
     theorem is about the view; outcomes are covered by "no internal error" and by
-    the sweep), and the base is the model's own merge of the lower levels (the
-    spec's [union_of]: tied by C03_highest_level_wins up to key order only).
+    the sweep).
     Under the guard the view after the history shows, at every path, exactly
     what the journal of successful edits replayed over the merge of the CURRENT
     lower levels shows ([sim]: same leaf value / section / nothing at every
@@ -47,9 +46,24 @@ Proof. exact inv_delete. Qed.
 Theorem C06_refines_nested_dict_partial : forall S fs c0 ops,
   is_node S = true -> good0 S c0 = true -> forallb (op_ok S) ops = true ->
   let c := fst (run fs c0 ops) in
+  sim (Node (c_cache c)) (Node (replay (union_of (lower c)) (journal fs c0 ops))).
+Proof. exact refines_nested_dict_union. Qed.
+
+(** The same against the model's own merge of the lower levels. *)
+Theorem C06_refines_nested_dict_merge_partial : forall S fs c0 ops,
+  is_node S = true -> good0 S c0 = true -> forallb (op_ok S) ops = true ->
+  let c := fst (run fs c0 ops) in
   exists X, merge_all (lower c) [] = Ok X /\ wf (Node X) = true /\
             sim (Node (c_cache c)) (Node (replay (Node X) (journal fs c0 ops))).
 Proof. exact refines_nested_dict. Qed.
+
+(** The specification's deep union of type-consistent levels and the model's
+    merge of them show the same at every path. *)
+Theorem C06_union_is_merge : forall ls X,
+  (forall l, In l ls -> wf l = true /\ is_node l = true) ->
+  (forall a b, In a ls -> In b ls -> agree a b) ->
+  merge_all ls [] = Ok X -> sim (union_of ls) (Node X).
+Proof. exact union_sim_merge. Qed.
 
 (** Under the same guard no operation fails with anything but KeyError /
     AttributeError for a missing key (or the TypeError of walking through a leaf,
